@@ -1,6 +1,6 @@
 From CRNG Require Import Base.ListX Base.Bytes Base.Decimal Base.Order Lib.Md5 Model.Hashing Check.Common.
 
-Inductive c15op := Add (addr : bytes) | Del (idx : nat) | Q (name : bytes).
+Inductive c15op := Add (addr : bytes) | Del (idx : nat) | Q (name : bytes) | Mod (idx : nat) (addr : bytes).   (* Mod: modDest addr= *)
 
 Definition hdest_of_addr (addr : bytes) : hdest := addr_instance_split addr.
 
@@ -16,6 +16,11 @@ Fixpoint c15_run (ds : list hdest) (ring : list entry) (ops : list c15op) : list
   | Del i :: ops' =>
       if Nat.ltb i (length ds) then
         let ds' := firstn i ds ++ skipn (S i) ds in
+        (-2)%Z :: c15_run ds' (ring_of md5_pos 100 ds') ops'
+      else (-3)%Z :: c15_run ds ring ops'
+  | Mod i a :: ops' =>
+      if Nat.ltb i (length ds) then
+        let ds' := firstn i ds ++ [hdest_of_addr a] ++ skipn (S i) ds in
         (-2)%Z :: c15_run ds' (ring_of md5_pos 100 ds') ops'
       else (-3)%Z :: c15_run ds ring ops'
   | Q name :: ops' =>
